@@ -128,7 +128,12 @@ def raiser(env, kind, message):
         def f():
             raise KeyError(message)
     elif kind.startswith("custom-"):
-        code = {"custom-0": 0, "custom-7": 7, "custom-999": 999, "custom-none": None, "custom-x": "x"}[kind]
+        import decimal
+        import fractions
+
+        code = {"custom-0": 0, "custom-7": 7, "custom-999": 999, "custom-none": None, "custom-x": "x", "custom-float": 2.5, "custom-nan": float("nan"),
+                "custom-true": True, "custom-neg": -3, "custom-huge": 1e300, "custom-decimal": decimal.Decimal("7.5"), "custom-fraction": fractions.Fraction(7, 2),
+                "custom-method": (lambda: 3), "custom-absent": "absent"}[kind]
 
         def f():
             raise env.Custom(message, code)
@@ -150,6 +155,22 @@ def raiser(env, kind, message):
                     raise RuntimeError("middle") from e
             except RuntimeError as e2:
                 raise ValueError(message) from e2
+    elif kind == "chain-same-message":
+        # every exception of the chain carries the (hostile) message
+        def f():
+            try:
+                try:
+                    raise KeyError(message)
+                except KeyError as e:
+                    raise RuntimeError(message) from e
+            except RuntimeError as e2:
+                raise ValueError(message) from e2
+    elif kind == "chain-context-message":
+        def f():
+            try:
+                raise LookupError(message)
+            except LookupError:
+                raise ValueError("outer failure")
     elif kind == "chain-implicit":
         def f():
             try:
@@ -159,6 +180,13 @@ def raiser(env, kind, message):
     elif kind == "sourceless":
         ns = {}
         exec(compile("def g(m):\n    raise ValueError(m)\n", "<no-such-file>", "exec"), ns)
+
+        def f():
+            ns["g"](message)
+    elif kind == "sourceless-markup-name":
+        # code compiled under a file name that spells a closing style tag
+        ns = {}
+        exec(compile("def g(m):\n    raise ValueError(m)\n", "a</error>b", "exec"), ns)
 
         def f():
             ns["g"](message)
@@ -193,8 +221,9 @@ def raiser(env, kind, message):
     return f
 
 
-EXC_KINDS = ["ValueError", "KeyError", "custom-0", "custom-7", "custom-999", "custom-none", "custom-x", "library", "clikit-base", "interrupt",
-             "chain-from", "chain-implicit", "sourceless", "sourceless-middle", "deleted-file"]
+EXC_KINDS = ["ValueError", "KeyError", "custom-0", "custom-7", "custom-999", "custom-none", "custom-x", "custom-float", "custom-nan", "custom-true", "custom-neg",
+             "custom-huge", "custom-decimal", "custom-fraction", "custom-method", "custom-absent", "library", "clikit-base", "interrupt",
+             "chain-from", "chain-implicit", "chain-same-message", "chain-context-message", "sourceless", "sourceless-markup-name", "sourceless-middle", "deleted-file"]
 VERBOSITY = [[], ["-v"], ["-vv"], ["-vvv"]]
 LISTENERS = ["none", "passes", "handles-0", "handles-5", "handles-300", "handles-default", "raises"]
 
@@ -304,7 +333,7 @@ def run_case(sh, env, outcome, msg_class, vflags, listener, ansi, quiet=False, l
         sh.violate("exception-report", case, "%s: status %d but nothing was printed" % (kind, status))
         return
     if outcome[0] == "raise":
-        want = message if kind != "KeyError" else repr(message)
+        want = "outer failure" if kind == "chain-context-message" else (message if kind != "KeyError" else repr(message))
         if normalise(want) not in normalise(text):
             sh.violate("exception-report", case, "%s: the report does not contain the message %r: %r" % (kind, normalise(want)[:60], normalise(text)[:200]))
 
